@@ -236,6 +236,7 @@ func RunClient(cfg ClientConfig, script []string) *CTrace {
 	var conn net.Conn = cb
 	var tlsConn *tls.Conn
 	tlsBroken := false
+	justEstablished := false
 	var pending []byte
 	returned := false
 	var result res
@@ -246,20 +247,28 @@ func RunClient(cfg ClientConfig, script []string) *CTrace {
 		spins := 0
 		for {
 			progressed := false
-			if tlsConn == nil && cb.Buffered() >= 3 {
-				if pk := cb.Peek(3); pk[0] == 0x16 && pk[1] == 0x03 {
-					// the client started a TLS handshake (it applies whatever non-none encryption was confirmed): serve it
-					tc := tls.Server(cb, rig.ServerTLS())
-					_ = tc.SetDeadline(time.Now().Add(3 * time.Second))
-					if err := tc.Handshake(); err != nil {
-						tr.Events = append(tr.Events, CEv{T: "tls-fail", Detail: err.Error()})
-						tlsBroken = true
-					} else {
-						_ = tc.SetDeadline(time.Time{})
-						tlsConn, conn = tc, tc
-						tr.Events = append(tr.Events, CEv{T: "tls-up"})
+			if tlsConn == nil && cb.Buffered() > 0 {
+				// (one snapshot decides: bytes arriving between two looks must not be read as cleartext)
+				pk := cb.Peek(3)
+				if len(pk) > 0 && pk[0] == 0x16 {
+					if len(pk) < 3 {
+						runtime.Gosched()
+						continue
 					}
-					continue
+					if pk[1] == 0x03 {
+						// the client started a TLS handshake (it applies whatever non-none encryption was confirmed): serve it
+						tc := tls.Server(cb, rig.ServerTLS())
+						_ = tc.SetDeadline(time.Now().Add(3 * time.Second))
+						if err := tc.Handshake(); err != nil {
+							tr.Events = append(tr.Events, CEv{T: "tls-fail", Detail: err.Error()})
+							tlsBroken = true
+						} else {
+							_ = tc.SetDeadline(time.Time{})
+							tlsConn, conn = tc, tc
+							tr.Events = append(tr.Events, CEv{T: "tls-up"})
+						}
+						continue
+					}
 				}
 			}
 			if tlsBroken {
@@ -267,6 +276,11 @@ func RunClient(cfg ClientConfig, script []string) *CTrace {
 				return
 			}
 			if cb.Buffered() > 0 {
+				if tlsConn == nil {
+					if pk := cb.Peek(1); len(pk) == 1 && pk[0] == 0x16 {
+						continue // a TLS record: handled above
+					}
+				}
 				var n int
 				if tlsConn != nil {
 					_ = tlsConn.SetReadDeadline(time.Now().Add(50 * time.Millisecond))
@@ -312,6 +326,21 @@ func RunClient(cfg ClientConfig, script []string) *CTrace {
 				return
 			}
 			if ca.ReadBlocked() && cb.Buffered() == 0 {
+				if justEstablished && !returned {
+					// the freshly started receiver already blocks reading while EstablishSession is about to return
+					justEstablished = false
+					for t0 := time.Now(); time.Since(t0) < 3*time.Millisecond; {
+						select {
+						case result = <-done:
+							returned = true
+						default:
+							runtime.Gosched()
+							continue
+						}
+						break
+					}
+					continue
+				}
 				return
 			}
 			if tr.ClientClosed && !returned {
@@ -351,6 +380,7 @@ func RunClient(cfg ClientConfig, script []string) *CTrace {
 		tr.Events = append(tr.Events, CEv{T: "s-send", Sym: sym, Env: env})
 		_ = conn.SetWriteDeadline(time.Now().Add(3 * time.Second))
 		_, _ = conn.Write(b)
+		justEstablished = env != nil && env["state"] == "established"
 		pump()
 	}
 	if !returned && !tr.Stuck && !disconnected {
@@ -388,6 +418,12 @@ func RunClient(cfg ClientConfig, script []string) *CTrace {
 		runtime.Gosched()
 	}
 	tr.ClientClosed = cb.PeerClosed()
+	if !cfg.HighLevel && returned && result.err != nil {
+		// a receiver that has just been handed a refused envelope fails the channel a moment later
+		for t0 := time.Now(); cc.State() == lime.SessionStateEstablished && time.Since(t0) < 20*time.Millisecond; {
+			runtime.Gosched()
+		}
+	}
 	if cfg.HighLevel {
 		tr.Published = returned && result.err == nil && result.panic == nil
 		if ch := client.VerifChannel(); ch != nil {
